@@ -75,6 +75,13 @@ def s7(uri, mode, *, k, m):        # noqa: F811
     return 7
 
 
+@memento_function(version="1")
+def n_outer(a):
+    """a caller whose nested call inherits the caller's context arguments"""
+    REC.calls.append(("n_outer", dict(a=a)))
+    return s1(a)
+
+
 SIGS = {"s1": (s1, ["a"], []), "s2": (s2, ["a", "b"], []), "s3": (s3, ["a", "b", "c"], []),
         "s4": (s4, ["a", "b"], ["k", "m"]), "s5": (s5, ["alpha", "beta", "gamma", "delta", "eps"], []),
         "s6": (s6, ["factor", "value", "rev"], []), "s7": (s7, ["uri", "mode"], ["k", "m"])}
